@@ -113,6 +113,8 @@ def c13_t1(ctx, f):
         for e in r.trace:
             if e["depth"] != 1:
                 continue
+            if e["callee"].rsplit("::", 1)[-1] not in ("fit_to", "render", "render_node"):
+                continue  # a FitTo value passed to a combinator (map_or's default, ...) is not a request to the rasteriser
             for a_ in e["dargs"]:
                 if a_ != TOP and a_[0] == "adt" and a_[1].endswith("FitTo"):
                     fits.append((e["callee"], a_[3], [to_py(x) for x in a_[4]]))
@@ -123,6 +125,10 @@ def c13_t1(ctx, f):
         users = sorted({c.split("::")[-1] for c, _, _ in fits})
         agree = bool(fits) and all(side(v, p) == exp for _, v, p in fits)
         ok = agree and "render" in users and "fit_to" in users
+        if not fits:
+            # no FitTo value reached the rasteriser's calls in a form the evaluator knows (built by a combinator it cannot follow)
+            ctx.abstain(rid, "%s: the fit request handed to the rasteriser is not a value the evaluation knows (%s: %s)" % (inst, r.kind, r.why), where_fn(fn))
+            continue
         if (agree or not fits) and not ok and r.kind != "ret":
             ctx.abstain(rid, "%s: to_pixmap not folded up to the render call (%s: %s)" % (inst, r.kind, r.why), where_fn(fn))
             continue
